@@ -245,6 +245,16 @@ def global_state_snapshot():
     snap['profile'] = repr(sys.getprofile())
     snap['locale'] = locale.setlocale(locale.LC_ALL)
     snap['threads'] = threading.active_count()
+    # the namespaces of the numeric libraries (a monkeypatch / shim left
+    # behind); sub-modules that appear through lazy imports are not counted
+    import types
+    import scipy
+    import scipy.linalg
+    import scipy.special
+    snap['namespaces'] = hash(tuple(
+        hash(frozenset((k, id(v)) for k, v in vars(m).items()
+                       if not isinstance(v, types.ModuleType)))
+        for m in (np, np.linalg, scipy, scipy.linalg, scipy.special)))
     try:
         import sklearn
         snap['sklearn_config'] = {k: repr(v) for k, v in
